@@ -49,7 +49,93 @@ class Summ:
     # ---------------------------------------------------------------- atoms (structured keys)
     def lit_is(self, subj, variant, universe=None):
         # the optional 4th component names all variants of the subject's type (known where the code switches on it): see boolalg.UNIVERSE
+        acc = self._accessor_is(subj, variant)
+        if acc is not None:
+            return acc
         return B.atom(("is", subj, variant) + ((universe,) if universe else ()))
+
+    def _accessor_shape(self, path):
+        """W when the local function `path` is `fn(x) -> Option<..> { match x { W(p) => Some(p), _ => None } }` (Node::expression and its like), else None"""
+        cache = self.__dict__.setdefault("_acc_shape", {})
+        if path in cache:
+            return cache[path]
+        w = None
+        tb = self.crate.bodies.get(path)
+        try:
+            if tb is not None and tb.arg_count == 1 and tb.local_ty(0).startswith("std::option::Option<"):
+                rows = S.ret_table(tb)
+                some = [(g, v) for (g, v) in rows if v[0] == "agg" and v[2].endswith("Option::Some") and len(v[3]) == 1]
+                none = [(g, v) for (g, v) in rows if v[0] == "agg" and v[2].endswith("Option::None")]
+                if len(rows) == 2 and len(some) == 1 and len(none) == 1:
+                    pay = some[0][1][3][0]
+                    if pay[0] == "proj" and pay[2][0] == "f" and pay[2][1] == 0 and pay[1][0] == "proj" and pay[1][2][0] == "dc" and pay[1][1] == ("param", 1):
+                        cand = pay[1][2][1]
+                        if some[0][0] == [["is(arg1; %s)" % cand]] and none[0][0] == [["!is(arg1; %s)" % cand]]:
+                            w = cand
+        except Exception:
+            w = None
+        cache[path] = w
+        return w
+
+    def _accessor_is(self, subj, variant):
+        """`node.expression()?` / `if let Some(e) = node.expression()`: the accessor's result is Some exactly when the node is of that kind"""
+        if variant not in ("Some", "None") or subj[0] != "phi" or len(subj[2]) != 2 or not (isinstance(subj[1], tuple) and len(subj[1]) == 2 and subj[1][1] == 0):
+            return None
+        w = self._accessor_shape(subj[1][0])
+        if w is None:
+            return None
+        some = [m for m in subj[2] if m[0] == "agg" and m[2].endswith("Option::Some") and len(m[3]) == 1]
+        none = [m for m in subj[2] if m[0] == "agg" and m[2].endswith("Option::None")]
+        if len(some) != 1 or len(none) != 1:
+            return None
+        x = some[0][3][0]
+        if not (x[0] == "proj" and x[2][0] == "f" and x[2][1] == 0 and x[1][0] == "proj" and x[1][2] == ("dc", w)):
+            return None
+        n = x[1][1]
+        f = None
+        # what a search for kinds that only nodes of this type can have returns is of this type (R01.tables: the kind tables are injective and agree in name)
+        e = n
+        if e[0] == "elem":
+            src = e[1][1] if e[1][0] == "iter" else e[1]
+            if src[0] == "call" and src[1] in core.SEARCH_FNS and len(src[2]) == 2:
+                kinds = core.search_kinds(src[2][0])
+                wr = self._kind_wrappers()
+                if kinds and wr and all(wr.get(k_) == {w} for k_ in kinds):
+                    f = B.T
+        if f is None:
+            f = B.atom(("is", n, w))
+        return f if variant == "Some" else B.Not(f)
+
+    def _kind_wrappers(self):
+        """{Target kind: set of Node wrappers whose payload type has a variant classified as that kind} from Node::as_target's table"""
+        cache = self.__dict__.get("_kind_wr")
+        if cache is not None:
+            return cache
+        out = {}
+        try:
+            at = self.crate.bodies.get("analyzer::ast::Node::as_target")
+            if at is not None:
+                for g, v in S.ret_table(at):
+                    vs = S.variant_of_guard(g)
+                    if not vs or len(vs) != 1:
+                        out = {}
+                        break
+                    wrapper = vs[0]
+                    if v[0] == "agg" and v[1] == "adt" and "::Target::" in v[2]:
+                        out.setdefault(v[2].rsplit("::", 1)[-1], set()).add(wrapper)
+                    elif v[0] == "call" and v[1] in self.crate.bodies:
+                        for _g2, v2 in S.ret_table(self.crate.bodies[v[1]]):
+                            if v2[0] == "agg" and v2[1] == "adt" and "::Target::" in v2[2]:
+                                out.setdefault(v2[2].rsplit("::", 1)[-1], set()).add(wrapper)
+                            else:
+                                raise ValueError("unclassified row")
+                    else:
+                        out = {}
+                        break
+        except Exception:
+            out = {}
+        self.__dict__["_kind_wr"] = out
+        return out
 
     def bool_formula(self, body, t, depth=0):
         """formula of a boolean-valued term"""
